@@ -229,7 +229,7 @@ func (rep *Report) depPkgs() []string {
 
 // rewriteFn builds the clock/schedule overlay; typed ASTs are consumed, so the packages are reloaded for each use.
 func (rep *Report) rewriteFn(curPkg string) func(string, map[string]string) error {
-	if len(rep.Spec.Clock) == 0 && len(rep.Spec.Sched) == 0 {
+	if len(rep.Spec.Clock) == 0 && len(rep.Spec.Sched) == 0 && !rep.Spec.Ghost {
 		return nil
 	}
 	return func(scratch string, replace map[string]string) error {
@@ -253,7 +253,7 @@ func (rep *Report) rewriteFn(curPkg string) func(string, map[string]string) erro
 			}
 			sched = all
 		}
-		return buildRewriteOverlay(ld.byDir, rep.Repo, rep.Spec.Clock, sched, scratch, replace, curPkg)
+		return buildRewriteOverlay(ld.byDir, rep.Repo, rep.Spec.Clock, sched, scratch, replace, curPkg, rep.Spec.Ghost)
 	}
 }
 
